@@ -285,7 +285,7 @@ fn events_hash(ev: &[Event]) -> u64 {
             Event::Spawn { tid } => s.push_str(&format!("T{};", tid)),
             Event::Expand { tid, input } => s.push_str(&format!("E{},{};", tid, input)),
             Event::ExpandTokens { tid, input } => s.push_str(&format!("Et{},{};", tid, input)),
-            Event::ExpandPair { a_tid, a_input, b_tid, b_input, sched } => s.push_str(&format!("X{},{},{},{},{};", a_tid, a_input, b_tid, b_input, sched)),
+            Event::ExpandPair { a_tid, a_input, b_tid, b_input, sched, third } => s.push_str(&format!("X{},{},{},{},{},{:?};", a_tid, a_input, b_tid, b_input, sched, third)),
             Event::Perturb { tid, n, seed } => s.push_str(&format!("P{},{},{};", tid, n, seed)),
             Event::Order { tid, policy, seed } => s.push_str(&format!("O{},{},{};", tid, policy, seed)),
             Event::OrderAt { tid, policy, seed, site } => s.push_str(&format!("O{},{},{},{};", tid, policy, seed, site)),
@@ -303,7 +303,10 @@ fn host_summary(h: &HostCfg) -> Value {
             Event::Spawn { tid } => format!("spawn(t{})", tid),
             Event::Expand { tid, input } => format!("expand(t{},i{})", tid, input),
             Event::ExpandTokens { tid, input } => format!("expand_token_built(t{},i{})", tid, input),
-            Event::ExpandPair { a_tid, a_input, b_tid, b_input, .. } => format!("concurrently(t{}:i{} || t{}:i{})", a_tid, a_input, b_tid, b_input),
+            Event::ExpandPair { a_tid, a_input, b_tid, b_input, third, .. } => match third {
+                None => format!("concurrently(t{}:i{} || t{}:i{})", a_tid, a_input, b_tid, b_input),
+                Some((c_tid, c_input)) => format!("concurrently(t{}:i{} || t{}:i{} || t{}:i{})", a_tid, a_input, b_tid, b_input, c_tid, c_input),
+            },
             Event::Perturb { tid, n, .. } => format!("perturb(t{},{})", tid, n),
             Event::Order { tid, policy, seed } => format!("order(t{},p{},s{})", tid, policy, seed),
             Event::OrderAt { tid, policy, site, .. } => format!("order(t{},p{},at {})", tid, policy, site),
@@ -601,7 +604,7 @@ fn hostcfg_to_json(h: &HostCfg) -> Value {
             Event::Spawn { tid } => json!({"op": "spawn", "tid": tid}),
             Event::Expand { tid, input } => json!({"op": "expand", "tid": tid, "input": input}),
             Event::ExpandTokens { tid, input } => json!({"op": "expand_token_built", "tid": tid, "input": input}),
-            Event::ExpandPair { a_tid, a_input, b_tid, b_input, sched } => json!({"op": "expand_pair", "tid": a_tid, "input": a_input, "b_tid": b_tid, "b_input": b_input, "sched": sched.to_string()}),
+            Event::ExpandPair { a_tid, a_input, b_tid, b_input, sched, third } => json!({"op": "expand_pair", "tid": a_tid, "input": a_input, "b_tid": b_tid, "b_input": b_input, "sched": sched.to_string(), "third": third.map(|t| vec![t.0, t.1])}),
             Event::Perturb { tid, n, seed } => json!({"op": "perturb", "tid": tid, "n": n, "seed": seed.to_string()}),
             Event::Order { tid, policy, seed } => json!({"op": "order", "tid": tid, "policy": policy, "seed": seed.to_string()}),
             Event::OrderAt { tid, policy, seed, site } => json!({"op": "order_at", "tid": tid, "policy": policy, "seed": seed.to_string(), "site": site}),
@@ -650,7 +653,7 @@ fn hostcfg_from_json(v: &Value) -> Option<HostCfg> {
             "spawn" => Event::Spawn { tid },
             "expand" => Event::Expand { tid, input: e["input"].as_u64()? as u32 },
             "expand_token_built" => Event::ExpandTokens { tid, input: e["input"].as_u64()? as u32 },
-            "expand_pair" => Event::ExpandPair { a_tid: tid, a_input: e["input"].as_u64()? as u32, b_tid: e["b_tid"].as_u64()? as u32, b_input: e["b_input"].as_u64()? as u32, sched: e["sched"].as_str()?.parse().ok()? },
+            "expand_pair" => Event::ExpandPair { a_tid: tid, a_input: e["input"].as_u64()? as u32, b_tid: e["b_tid"].as_u64()? as u32, b_input: e["b_input"].as_u64()? as u32, sched: e["sched"].as_str()?.parse().ok()?, third: e["third"].as_array().and_then(|a| Some((a.first()?.as_u64()? as u32, a.get(1)?.as_u64()? as u32))) },
             "perturb" => Event::Perturb { tid, n: e["n"].as_u64()? as u32, seed: e["seed"].as_str()?.parse().ok()? },
             "order" => Event::Order { tid, policy: e["policy"].as_u64()? as u8, seed: e["seed"].as_str()?.parse().ok()? },
             "order_at" => Event::OrderAt { tid, policy: e["policy"].as_u64()? as u8, seed: e["seed"].as_str()?.parse().ok()?, site: e["site"].as_str()?.to_string() },
